@@ -7,39 +7,22 @@ sys.path.insert(0, "/verif/pylib")
 import orch
 
 THRASH = "option tuple without guaranteed progress (restarts on while learned nogoods are deleted above a tiny limit, or nothing is learned): the solve does not terminate within the poll budget"
-IMPL_CUM = "half-reified cumulative (incremental time-table variants): an assignment with the literal true that overloads the resource is reported"
-MIN = "conflict analysis meets a reason predicate that is not assigned (mostly with clauses over equality / disequality predicates or constraints with a repeated variable; consequence of the nogood propagator propagating on an equality predicate that is not true): the recursive minimiser panics"
-TR = "clause over equality / disequality predicates: conflict analysis asks for the trail entry of a predicate that is not on the trail"
-ELEM = "element constraint in which a variable occurs more than once: solutions are lost / conflict analysis panics"
-LIB = ["C01", "C02", "C03", "C04", "C05", "C06", "C07", "C08", "C09", "C10", "C11", "C16", "C18", "C20"]
+CORE = "extract_core panics in the resolver: the final nogood contains a predicate that is not on the trail (a violated assumption merged with an earlier one by semantic minimisation) and get_trail_position(..).unwrap() fails"
 SPEC = []
-for P in ["C02", "C03", "C07", "C09", "C18"]:
+for P in ["C02", "C03", "C05", "C07", "C09", "C18"]:
     SPEC.append((P, P + "-thrash-no-termination", ["opt.thrash"], r"^(budget-exhausted|hang)", THRASH))
-for P in ["C01", "C02", "C03", "C04", "C05", "C07", "C09", "C10", "C11", "C18"]:
-    SPEC.append((P, P + "-implied-cumulative", ["implied.cumulative"], r"^(solution-violates-model|non-solution-yielded|stale-or-wrong-solution).*cumulative", IMPL_CUM))
-for P in LIB:
-    SPEC.append((P, P + "-minimiser-unassigned-predicate", [], r"called `Option::unwrap\(\)` on a `None` value @ .*recursive_minimiser", MIN))
-    SPEC.append((P, P + "-predicate-clause-trail-entry", [], r"Expected to be able to get trail entry of", TR))
-for P in ["C02", "C03", "C07", "C09"]:
-    SPEC.append((P, P + "-element-repeated-variable", ["element.repeated_var"], r"^(solution-missing|panic|unsat-but-satisfiable|learned-nogood-not-implied)", ELEM))
 SPEC += [
-  ("C09", "C09-implied-element-minimiser-panic", ["implied.element"], r"^panic: called `Option::unwrap\(\)` on a `None` value @ .*recursive_minimiser", "half-reified element: the recursive minimiser panics on a reason predicate that is not assigned"),
-  ("C05", "C05-no-learning-assumptions", ["opt.no_learning"], r".", "the no-learning resolver flips assumptions like decisions: panics / wrong cores under assumptions"),
-  ("C05", "C05-assumption-false-at-root", ["assume.model_false"], r"^(core-not-implied-by-assumptions|core-panic)", "an assumption that is false in every solution of the model: the core contains its negation / extract_core panics"),
-  ("C05", "C05-core-panic-resolver", [], r"^core-panic.*resolution_resolver", "extract_core panics in the resolver (unwrap on None in the all-decision resolution)"),
-  ("C10", "C10-core-panic-resolver", ["history.assumptions"], r"extract_core.*resolution_resolver", "extract_core panics in the resolver (unwrap on None in the all-decision resolution)"),
+  ("C05", "C05-no-learning-assumptions", ["opt.no_learning"], r".", "the no-learning resolver flips assumptions like decisions and asserts on assumption levels without a decision entry: panics / unusable cores under assumptions"),
+  ("C05", "C05-assumption-false-at-root", ["assume.model_false"], r"^(core-not-implied-by-assumptions|core-panic)", "an assumption that is false in every solution of the model: the core contains a predicate that is not a consequence of the assumptions / extract_core panics"),
+  ("C05", "C05-core-panic-resolver", [], r"^core-panic.*resolution_resolver", CORE),
+  ("C10", "C10-core-panic-resolver", ["history.assumptions"], r"extract_core.*resolution_resolver", CORE),
   ("C10", "C10-core-panic-after-optimise", ["history.optimise", "history.assumptions"], r"^panic: .*extract_core", "extract_core panics in a history that contains an earlier optimisation (objective facts at the root without a reason)"),
-  ("C08", "C08-extended-regime", ["cumulative.extended"], r".", "cumulative outside the canonical regime (zero duration/usage, usage > capacity, negative or scaled start times, repeated variables): wrong solution sets, unsound explanations, panics, a hang"),
-  ("C17", "C17-cumulative-extended-regime", ["cumulative.extended"], r"^(reason-|conflict-reason-|analysis-reason-|hang)", "cumulative outside the canonical regime: explanations that do not follow from the constraint / are not true; endless loop with zero-duration tasks"),
-  ("C17", "C17-nogood-reason-not-true", [], r"^analysis-reason-not-true.*NogoodPropagator", "nogood containing an equality predicate: the nogood propagator propagates although that predicate is not true, so its reason does not hold (mostly with clauses over equality predicates or repeated variables)"),
-  ("C06", "C06-unsat-at-clause-without-empty-nogood", ["proof.post_err.clause"], r"^unsat-without-empty-nogood", "infeasibility detected while adding a clause: the proof concludes UNSAT without the empty nogood"),
   ("C06", "C06-scaffold-sat-unsat-cuts-missing", ["proof.scaffold", "proof.sat-unsat"], r"^nogood-not-implied", "scaffold proof of a linear SAT-UNSAT optimisation does not contain the objective cuts its nogoods depend on"),
-  ("C06", "C06-reified-literal-trivial-predicate", ["kind.literal_definition"], r"(is not a valid reification predicate|assertion failed: rhs == 0 \|\| rhs == 1)", "literal created with new_literal_for_predicate: proof logging panics on a trivially true bound of the literal (e.g. [b <= 1]) in a reason"),
-  ("C06", "C06-predicate-clause-root-premise", ["kind.predicate_clause"], r"assertion failed: self.assignments.is_predicate_satisfied\(premise\)", "clause over equality predicates: logging a root propagation asserts on a reason predicate that is not true"),
-  ("C06", "C06-finalizer-empty-reason", [], r"assertion failed: !reason.is_empty\(\)", "proof finalisation asserts on an empty reason"),
-  ("C13", "C13-element-repeated-variable", ["fzn.element_repeated_var"], r"^(solution-set-mismatch|printed-non-solution|no-verdict|unsat-but-satisfiable)", ELEM),
+  ("C06", "C06-hints-incomplete", ["proof.hinted"], r"^hints-insufficient", "hinted proof: a nogood follows by propagation from the earlier steps but not from the steps named in its hints (a unit nogood behind a root-level fact is missing from the hints)"),
+  ("C06", "C06-literal-definition-root-premise", ["kind.literal_definition"], r"assertion failed: self.assignments.is_predicate_s", "literal created with new_literal_for_predicate for a predicate that is already decided at the root: logging a root propagation asserts on a reason predicate that is not true"),
   ("C15", "C15-cardinality-network-duplicate-soft", ["enc.cardinality-network", "wcnf.duplicate_soft"], r"Sorting network encoding is only supported on unweighted", "duplicate unit soft clauses of a uniform-weight instance are merged into one weighted literal and the cardinality-network encoding panics"),
-  ("C16", "C16-extreme-magnitudes", ["mag.regime.extreme"], r".", "constants at the 32-bit limits themselves (|value| >= 2^30 combined with offsets / right-hand sides of the same magnitude): wrapped intermediate results in views, linear-not-equal, maximum/minimum, absolute, division"),
+  ("C16", "C16-view-invert-overflow", [], r"attempt to divide with overflow @ .*num_ext", "AffineView::invert subtracts the offset and divides in 32 bits: when value - offset is i32::MIN and the scale is -1 the division overflows (panic); seen with max([-x + 65536, ..], 65536 * x) at x = -32767"),
+  ("C16", "C16-extreme-magnitudes", ["mag.regime.extreme"], r".", "constants at the 32-bit limits themselves (|value| >= 2^30 combined with offsets / right-hand sides of the same magnitude): wrapped intermediate results in views, maximum/minimum, absolute, division"),
 ]
 
 def main():
